@@ -77,6 +77,12 @@ def plan(tier, seed):
                             {"family": "ordered", "costs": v3[:1], "names": swaps})
         out += L.split_plan("unordered:U4x2x2/child-order", spaces.shape_pairs(4, 2, min_obj=4, min_sp=2), u2, 60,
                             {"family": "unordered", "costs": v3[:1], "names": swaps})
+        # 5-leaf chains on one species over FOUR families (menu {a, c, d, bd, abcd}), SuperDTL only, child-order and repetition
+        # transformations only: co-optimal solutions in which one ancestor carries different contents (see C05)
+        chain3 = [spaces.chain_shapes(5)[0], spaces.chain_shapes(5)[-1], (None, (None, ((None, None), None)))]
+        out += L.split_plan("unordered:U5chainx1x{a,c,d,bd,abcd}/child-order", [(sh, None) for sh in chain3],
+                            [("a",), ("c",), ("d",), ("b", "d"), ("a", "b", "c", "d")], 60,
+                            {"family": "unordered", "costs": v3[:1], "names": ["swap_object", "repeat_fresh"], "algos": ["superdtl"]})
         # the input solved after a pass through its dictionary form, under vectors with a unit cost of zero and an infinite one
         zero = [core[3], core[4], core[5], core[6], core[7]]
         dform = {"costs": zero, "names": ["through_dict_form"]}
@@ -107,7 +113,7 @@ def plan(tier, seed):
                         [(o, s_) for o in spaces.chain_shapes(4) for s_ in spaces.binary_shapes(3)], u2, 15,
                         {"family": "unordered", "costs": v5[:1], "kinds": ["same", "twice", "after", "inplace"]})
     # the quick slices that the larger ones above do not subsume
-    keep = ("unordered:U4chainx1x3/costs", "unordered:U3x4x1", "ordered:O3x4x1", "ordered:O4x2x2/child-order",
+    keep = ("unordered:U5chainx1x{a,c,d,bd,abcd}/child-order", "unordered:U4chainx1x3/costs", "unordered:U3x4x1", "ordered:O3x4x1", "ordered:O4x2x2/child-order",
             "unordered:U4x2x2/child-order", "ordered:O3x2x2/dict-form", "unordered:U3x2x2/dict-form", "plain:P3x3/dict-form")
     out = [sh for sh in plan("quick", seed) if sh["slice"] in keep] + out      # cheap ones first
     out.insert(0, {"slice": "determinism", "family": "det", "tier": "thorough"})
@@ -500,6 +506,8 @@ def run_shard(shard, tier, seed):
     else:
         algos = ORD_ALGOS if fam == "ordered" else UNORD_ALGOS
         gen = L.labelled_inputs(O, S, shard["menu"], shard.get("part"))
+    if shard.get("algos"):
+        algos = tuple(shard["algos"])
     for leafmap, leafsyn in gen:
         if fam == "ordered" and not ordered.root_orders(leafsyn):
             continue
